@@ -67,7 +67,7 @@ func (u *Unit) evalCall(call *ast.CallExpr, st *State) []Val {
 		for _, c := range cs {
 			g := u.evalClause(c, st, u.entry, argBind, nil)
 			u.oblige(st, "at#"+c.At+"#"+fmt.Sprint(u.assertOrdinal(c)), "assert", g, u.clauseProps(c), c, "in-body assertion before call "+c.At+": "+c.Text, call)
-			st.assume(g)
+			// not assumed afterwards: assertions carry different property tags and must not lean on each other
 		}
 	}
 	// conversion
